@@ -149,8 +149,22 @@ def check_add_measures(ctx, part, before, w):
     model = timemaps.Model(dt)
     ts_starts = {t for t, *_ in d["ts"]}
     old_starts = {s for s, _ in old}
+    inexact = set()                    # barlines whose exact position lies between two positions (they were rounded)
     for s, e in ms:
         if (s, e) in old:
+            continue
+        if s in inexact:
+            # this bar starts on a rounded barline: its exact length is judged with one position of slack on either side
+            (b, bt, _), amb = sigmaps.ts_at(d, s)
+            ctx.check()
+            if not amb and e - 1 > s + 1 and (bar_beats(model, s + 1, e - 1) >= b or (e + 1 <= last and bar_beats(model, s - 1, e + 1) <= b
+                                                                                  and not (e in ts_starts or e in old_starts or e == last))):
+                ctx.violation("add_measures-measure-length-wrong-after-rounded-barline",
+                              f"added measure [{s},{e}) lasts {bar_beats(model, s, e)} beats under {b}/{bt}", w)
+                return
+            ctx.ambiguous()
+            if bar_beats(model, s, e) != b:
+                inexact.add(e)
             continue
         (b, bt, _), amb = sigmaps.ts_at(d, s)
         if amb or (d["ts"] and s < d["ts"][0][0]):
@@ -163,9 +177,11 @@ def check_add_measures(ctx, part, before, w):
         from fractions import Fraction as _F
         if (_F(4 * b * sigmaps.div_at(d, s), bt)).denominator != 1:
             ctx.ambiguous()              # the bar is not a whole number of divisions: where it is cut is don't-care
+            inexact.add(e)
             continue
         if beats > b and e - 1 > s and bar_beats(model, s, e - 1) < b:
             ctx.ambiguous()              # the exact end of the bar lies between two positions (division change inside the bar)
+            inexact.add(e)
             continue
         if beats > b:
             ctx.violation("add_measures-measure-longer-than-bar", f"added measure [{s},{e}) lasts {beats} beats under {b}/{bt}", w)
@@ -174,6 +190,7 @@ def check_add_measures(ctx, part, before, w):
         if not (e in ts_starts or e in old_starts or e == last):
             if e + 1 <= last and bar_beats(model, s, e + 1) > b:
                 ctx.ambiguous()        # the exact end of the bar is not an integer position: don't-care
+                inexact.add(e)
                 continue
             ctx.violation("add_measures-short-measure-not-cut", f"added measure [{s},{e}) lasts {beats} of {b} beats but nothing cuts it there", w)
             return
